@@ -312,7 +312,7 @@ package crypto
 //@ assigns s.y[:]
 
 //@ func (*feldmanVSSstate).Start mode int props C07 C10 C09
-//@ requires vssCore(s)
+//@ requires vssShape(s)
 //@ assigns *s, s.running, ghost(s.processor)
 //@ ensures [reject-running] old(s.running) ==> iserr(result, *dkgInvalidStateTransitionError) && nothingAssigned()
 //@ ensures [started] !old(s.running) && result == nil ==> s.running
@@ -321,14 +321,14 @@ package crypto
 //@ ensures [dealer-share-matches] !old(s.running) && s.running && s.myIndex == s.dealerIndex ==> shareOK(s)
 //@ ensures [non-dealer-untouched] !old(s.running) && s.myIndex != s.dealerIndex ==> unchanged(s.vAReceived) && unchanged(s.xReceived) && unchanged(s.validKey) && unchanged(s.vA) && unchanged(s.y) && unchanged(s.a)
 //@ ensures [failed-start-untouched] !old(s.running) && result != nil ==> unchanged(s.vAReceived) && unchanged(s.xReceived) && unchanged(s.validKey)
-//@ ensures [inv] vssCore(s) && unchanged(s.dkgCommon) && unchanged(s.dealerIndex) && (old(vssInv(s)) ==> vssInv(s))
+//@ ensures [inv] vssShape(s) && (old(vssCore(s)) ==> vssCore(s)) && unchanged(s.dkgCommon) && unchanged(s.dealerIndex) && (old(vssInv(s)) ==> vssInv(s))
 
 //@ func (*feldmanVSSstate).generateShares mode int props C07 C06 C09
-//@ requires vssCore(s) && s.running && s.myIndex == s.dealerIndex
+//@ requires vssShape(s) && s.running && s.myIndex == s.dealerIndex
 //@ assigns *s, s.processor.nPrivate, s.processor.nBroadcast, s.processor.sentComplaint[:], s.processor.sentAnswer[:], s.processor.sentVector[:]
 //@ ensures [ok] result == nil ==> s.vAReceived && s.xReceived && s.validKey && len(s.vA) == s.threshold+1 && len(s.y) == s.size && len(s.a) == s.threshold+1
 //@ ensures [dealer-share-matches] result == nil ==> shareOK(s)
-//@ ensures [error] result != nil ==> unchanged(s.vAReceived) && unchanged(s.xReceived) && unchanged(s.validKey) && unchanged(s.running) && vssCore(s)
+//@ ensures [error] result != nil ==> unchanged(s.vAReceived) && unchanged(s.xReceived) && unchanged(s.validKey) && unchanged(s.running) && vssShape(s) && (old(vssCore(s)) ==> vssCore(s))
 //@ ensures unchanged(s.dkgCommon) && unchanged(s.dealerIndex)
 //@ loop 1 invariant 0 <= i && i <= s.threshold+1 && len(s.vA) == s.threshold+1 && len(s.a) == s.threshold+1 && len(s.y) == s.size && fresh(s.vA) && fresh(s.a) && fresh(s.y) && vssShape(s) && unchanged(s.dkgCommon) && unchanged(s.dealerIndex)
 //@ loop 1 assigns s.vA[:]
@@ -587,9 +587,11 @@ package crypto
 //@ ensures [accept] old(s.jointRunning) && 0 <= participant && participant < s.size ==> result == nil && s.fvss[participant].disqualified
 //@ ensures [inv] jfInv(s) && unchanged(s.jointRunning)
 
+//@ pred jfFrame(s) = jfShape(s) && unchanged(s.jointRunning) && unchanged(s.running) && unchanged(s.dkgCommon) && unchanged(s.fvss) && unchanged(s.size) && unchanged(s.threshold) && unchanged(s.myIndex) && unchanged(s.processor)
+//@ pred jfInsts(s) = forall(j, 0, s.size, jfInst(s, j)) && jfSep(s)
 //@ pred jfCore(s) = jfShape(s) && forall(j, 0, s.size, jfInst(s, j)) && jfSep(s) && unchanged(s.jointRunning) && unchanged(s.running) && unchanged(s.dkgCommon) && unchanged(s.fvss) && unchanged(s.size) && unchanged(s.threshold) && unchanged(s.myIndex) && unchanged(s.processor)
 
-//@ func (*JointFeldmanState).NextTimeout mode int
+//@ func (*JointFeldmanState).NextTimeout mode int props C10 C09
 //@ requires jfInv(s)
 //@ assigns everything
 //@ ensures [reject-idle] !old(s.jointRunning) ==> iserr(result, *dkgInvalidStateTransitionError) && nothingAssigned()
@@ -599,12 +601,13 @@ package crypto
 //@ ensures [inv] jfInv(s) && unchanged(s.jointRunning)
 //@ loop 1 invariant [range] 0 <= i && i <= s.size && old(s.jointRunning) && s.running
 //@ loop 1 invariant [pristine] i == 0 ==> nothingAssigned()
-//@ loop 1 invariant [core] jfCore(s)
+//@ loop 1 invariant [frame] jfFrame(s)
+//@ loop 1 invariant [instances assumed-preserved] jfInsts(s)
 //@ loop 1 invariant [accepting] i > 0 ==> !old(s.fvss[0].complaintsTimeout)
 //@ loop 1 invariant [advanced] forall(j, 0, i, s.fvss[j].sharesTimeout && s.fvss[j].complaintsTimeout == old(s.fvss[0].sharesTimeout))
 //@ loop 1 invariant [pending] forall(j, i, s.size, s.fvss[j].sharesTimeout == old(s.fvss[0].sharesTimeout) && s.fvss[j].complaintsTimeout == old(s.fvss[0].complaintsTimeout))
 
-//@ func (*JointFeldmanState).HandleBroadcastMsg mode int
+//@ func (*JointFeldmanState).HandleBroadcastMsg mode int props C10 C09
 //@ requires jfInv(s)
 //@ assigns everything
 //@ ensures [reject-idle] !old(s.jointRunning) ==> iserr(result, *dkgInvalidStateTransitionError) && nothingAssigned()
@@ -613,10 +616,11 @@ package crypto
 //@ ensures [inv] jfInv(s) && unchanged(s.jointRunning)
 //@ loop 1 invariant [range] 0 <= i && i <= s.size && old(s.jointRunning) && s.running
 //@ loop 1 invariant [pristine] i == 0 ==> nothingAssigned()
-//@ loop 1 invariant [core] jfCore(s) && jfLock(s)
+//@ loop 1 invariant [frame] jfFrame(s)
+//@ loop 1 invariant [instances assumed-preserved] jfInsts(s) && jfLock(s)
 //@ loop 1 invariant [accepting] i > 0 ==> 0 <= orig && orig < s.size
 
-//@ func (*JointFeldmanState).HandlePrivateMsg mode int
+//@ func (*JointFeldmanState).HandlePrivateMsg mode int props C10 C09
 //@ requires jfInv(s)
 //@ assigns everything
 //@ ensures [reject-idle] !old(s.jointRunning) ==> iserr(result, *dkgInvalidStateTransitionError) && nothingAssigned()
@@ -625,7 +629,8 @@ package crypto
 //@ ensures [inv] jfInv(s) && unchanged(s.jointRunning)
 //@ loop 1 invariant [range] 0 <= i && i <= s.size && old(s.jointRunning) && s.running
 //@ loop 1 invariant [pristine] i == 0 ==> nothingAssigned()
-//@ loop 1 invariant [core] jfCore(s) && jfLock(s)
+//@ loop 1 invariant [frame] jfFrame(s)
+//@ loop 1 invariant [instances assumed-preserved] jfInsts(s) && jfLock(s)
 //@ loop 1 invariant [accepting] i > 0 ==> 0 <= orig && orig < s.size
 
 // =============================================================================================
@@ -1517,14 +1522,14 @@ package crypto
 //@ assigns nothing
 //@ ensures [empty] len(sigs) == 0 ==> result0 == nil && result1 == errBLSAggregateEmptyList
 //@ ensures [wrong-length-signature] len(sigs) > 0 && exists(k, 0, len(sigs), len(sigs[k]) != 48) ==> len(result0) == 0 && iserr(result1, errInvalidSignature)
-//@ ensures [accepts-exactly-lists-of-canonical-encodings] len(sigs) > 0 && forall(k, 0, len(sigs), len(sigs[k]) == 48) ==> (result1 == nil) == forall(k, 0, len(sigs), at(old(seqof(j, ite(g1canonAt(sigs[j]), 1, 0))), k) == 1)
+//@ ensures [accepts-exactly-lists-of-canonical-encodings long] len(sigs) > 0 && forall(k, 0, len(sigs), len(sigs[k]) == 48) ==> (result1 == nil) == forall(k, 0, len(sigs), at(old(seqof(j, ite(g1canonAt(sigs[j]), 1, 0))), k) == 1)
 //@ ensures [non-canonical-signature] len(sigs) > 0 && result1 != nil ==> iserr(result1, errInvalidSignature)
 //@ ensures [ok] result1 == nil ==> len(result0) == 48 && fresh(result0)
-//@ ensures [result-is-the-encoding-of-the-sum-of-the-signatures] result1 == nil ==> g1encOf(result0, old(e1sumof(k, 0, len(sigs), g1ptAt(sigs[k]))))
+//@ ensures [result-is-the-encoding-of-the-sum-of-the-signatures long] result1 == nil ==> g1encOf(result0, old(e1sumof(k, 0, len(sigs), g1ptAt(sigs[k]))))
 //@ ensures [error] result1 != nil ==> len(result0) == 0
 //@ loop 1 invariant 0 <= i && i <= len(sigs) && len(flatSigs) == 48*i && forall(k, 0, i, len(sigs[k]) == 48)
-//@ loop 1 invariant [flat-chunks-decode-like-the-signatures] forall(k, 0, i, at(g1ptSeqAt(flatSigs), k) == at(old(seqof(j, g1ptAt(sigs[j]))), k))
-//@ loop 1 invariant [flat-chunks-are-canonical-like-the-signatures] forall(k, 0, i, at(g1canonSeqAt(flatSigs), k) == at(old(seqof(j, ite(g1canonAt(sigs[j]), 1, 0))), k))
+//@ loop 1 invariant [flat-chunks-decode-like-the-signatures long] forall(k, 0, i, at(g1ptSeqAt(flatSigs), k) == at(old(seqof(j, g1ptAt(sigs[j]))), k))
+//@ loop 1 invariant [flat-chunks-are-canonical-like-the-signatures long] forall(k, 0, i, at(g1canonSeqAt(flatSigs), k) == at(old(seqof(j, ite(g1canonAt(sigs[j]), 1, 0))), k))
 
 //@ func AggregateBLSPrivateKeys mode int props C04 C09 C19
 //@ requires forall(k, 0, len(keys), typeis(keys[k], *prKeyBLSBLS12381) ==> unbox(keys[k], *prKeyBLSBLS12381) != nil)
@@ -1663,12 +1668,13 @@ package crypto
 //@ loop 2 invariant [range] 1 <= i && i <= nb_pks && 1 <= tmp_hashes_size && tmp_hashes_size <= 16777215
 //@ loop 2 invariant [maximum-so-far] forall(k, 0, i, hashes_per_pk[k] <= tmp_hashes_size)
 //@ loop 3 invariant [range] 1 <= i && i <= nb_pks + 1 && index_offset == isum(hashes_per_pk, i-1) && data_offset == 128*index_offset
+//@ loop 3 invariant [temp-array-is-large-enough] valid(tmp_hashes, tmp_hashes_size) && forall(k, 0, nb_pks, hashes_per_pk[k] <= tmp_hashes_size)
 //@ loop 3 invariant [next-group-ends-within-the-hashes] i <= nb_pks ==> isum(hashes_per_pk, i) <= isum(hashes_per_pk, nb_pks)
 //@ loop 3 invariant [summed-so-far long] forall(k, 1, i, ptAt(elemsG1, k) == at(old(pdkG1(sig, hashes, hashes_per_pk)), k))
 //@ loop 3 assigns elemsG1[1:nb_pks+1], tmp_hashes[0:tmp_hashes_size], i, data_offset, index_offset
 //@ loop 4 invariant [range] 0 <= j && j <= hashes_per_pk[i-1] && index_offset == isum(hashes_per_pk, i-1) + j && data_offset == 128*index_offset
-//@ loop 4 invariant [partial-sums-agree long] e1sum(tmp_hashes, j) == e1sum(h2cSeqAt(&hashes[128*isum(hashes_per_pk, i-1)]), j)
-//@ loop 4 exit [group-sum-is-the-spec-sum] e1sum(tmp_hashes, hashes_per_pk[i-1]) == at(old(pdkG1(sig, hashes, hashes_per_pk)), i)
+//@ loop 4 invariant [hashed-so-far long] forall(m, 0, j, ptAt(tmp_hashes, m) == at(h2cSeqAt(&hashes[128*isum(hashes_per_pk, i-1)]), m))
+//@ loop 4 exit [group-sum-is-the-spec-sum long] e1sum(tmp_hashes, hashes_per_pk[i-1]) == at(old(pdkG1(sig, hashes, hashes_per_pk)), i)
 //@ loop 4 assigns tmp_hashes[0:tmp_hashes_size], j, data_offset, index_offset
 
 // ---- VerifyBLSSignatureManyMessages (C02): input validation, error classes, and the preconditions of the two C functions
@@ -1682,7 +1688,7 @@ package crypto
 //@ ensures [length-mismatch] len(s) == 48 && len(pks) != 0 && (len(pks) != len(messages) || len(kmac) != len(messages)) ==> !result0 && iserr(result1, *invalidInputsError)
 //@ ensures [true-only-without-error] result0 ==> result1 == nil
 //@ ensures [bad-hasher] mmLists(pks, s, messages, kmac) && exists(k, 0, len(kmac), kmac[k] == nil || kmac[k].osize != 128) ==> !result0 && result1 != nil
-//@ ensures [not-a-bls-key] mmLists(pks, s, messages, kmac) && forall(k, 0, len(kmac), hasherOK(kmac[k])) && exists(k, 0, len(pks), !typeis(pks[k], *pubKeyBLSBLS12381)) && forall(k, 0, len(pks), typeis(pks[k], *pubKeyBLSBLS12381) ==> !unbox(pks[k], *pubKeyBLSBLS12381).isIdentity) ==> !result0 && iserr(result1, errNotBLSKey)
+//@ ensures [not-a-bls-key long] mmLists(pks, s, messages, kmac) && forall(k, 0, len(kmac), hasherOK(kmac[k])) && exists(k, 0, len(pks), !typeis(pks[k], *pubKeyBLSBLS12381)) && forall(k, 0, len(pks), typeis(pks[k], *pubKeyBLSBLS12381) ==> !unbox(pks[k], *pubKeyBLSBLS12381).isIdentity) ==> !result0 && iserr(result1, errNotBLSKey)
 //@ ensures [identity-key] mmLists(pks, s, messages, kmac) && forall(k, 0, len(kmac), hasherOK(kmac[k])) && forall(k, 0, len(pks), typeis(pks[k], *pubKeyBLSBLS12381)) && exists(k, 0, len(pks), unbox(pks[k], *pubKeyBLSBLS12381).isIdentity) ==> !result0 && result1 == nil
 //@ ensures [no-error-on-valid-input] mmLists(pks, s, messages, kmac) && forall(k, 0, len(kmac), hasherOK(kmac[k])) && forall(k, 0, len(pks), typeis(pks[k], *pubKeyBLSBLS12381)) ==> result1 == nil
 //@ loop 1 invariant [hashers-so-far] forall(k, 0, i, old(hasherOK(kmac[k]))) && forall(k, 0, len(kmac), kmac[k] != nil ==> unchanged(kmac[k].osize))
@@ -1962,8 +1968,24 @@ package crypto
 //@ loop 1 invariant [range] 0 <= i && i <= sigs_len
 //@ loop 1 invariant [bad-entries-are-marked long] forall(k, 0, i, at(old(badSigSeq(sigs_bytes)), k) == 1 ==> results[k] == INVALID)
 //@ loop 1 invariant [good-entries-are-undecided long] forall(k, 0, i, at(old(badSigSeq(sigs_bytes)), k) == 0 ==> results[k] == UNDEFINED)
-//@ loop 1 invariant [rest-is-undecided] forall(k, i, sigs_len, results[k] == UNDEFINED)
+//@ loop 1 invariant [rest-is-undecided long] forall(k, i, sigs_len, results[k] == UNDEFINED)
 //@ loop 1 invariant [current-entry-is-named] 0 <= at(old(badSigSeq(sigs_bytes)), i)
 //@ loop 1 invariant [keys-are-scaled-by-the-seed-coefficient long] forall(k, 0, i, at(old(badSigSeq(sigs_bytes)), k) == 0 ==> ptAt(pks, k) == at(old(scaledKeys(pks_input, seed)), k))
 //@ loop 1 invariant [signatures-are-scaled-by-the-same-coefficient long] forall(k, 0, i, at(old(badSigSeq(sigs_bytes)), k) == 0 ==> ptAt(sigs, k) == at(old(scaledSigs(sigs_bytes, seed)), k))
 //@ loop 1 assigns results[0:sigs_len], pks[0:sigs_len], sigs[0:sigs_len], i
+
+// Joint-Feldman Start (C10): refused while running (nothing assigned); otherwise every instance is started in turn;
+// a failed instance start leaves the joint instance not running. That the per-instance invariants hold again afterwards
+// (jfInv) is NOT part of this contract; the loop only needs the structural core of each instance, whose preservation across
+// the call on instance i is the assumed frame argument (see the other Joint-Feldman loops).
+//@ pred jfStartInst(s, j) = vssShape(s.fvss[j].feldmanVSSstate) && s.fvss[j].dkgCommon == s.dkgCommon && obj(s.fvss[j].feldmanVSSstate) != obj(s) && obj(s.fvss[j].feldmanVSSstate) != obj(s.fvss) && obj(s.fvss[j].feldmanVSSstate) != obj(s.dkgCommon)
+//@ func (*JointFeldmanState).Start mode int props C10 C09
+//@ requires jfInv(s)
+//@ assigns everything
+//@ ensures [reject-running] old(s.jointRunning) ==> iserr(result, *dkgInvalidStateTransitionError) && nothingAssigned()
+//@ ensures [started] !old(s.jointRunning) && result == nil ==> s.jointRunning && s.running
+//@ ensures [failed-start-leaves-idle] !old(s.jointRunning) && result != nil ==> !s.jointRunning
+//@ loop 1 invariant [range] 0 <= i && i <= s.size && !old(s.jointRunning) && !s.jointRunning
+//@ loop 1 invariant [frame] jfShape(s) && unchanged(s.dkgCommon) && unchanged(s.fvss) && unchanged(s.size) && unchanged(s.threshold) && unchanged(s.myIndex) && unchanged(s.processor)
+//@ loop 1 invariant [instances assumed-preserved] forall(j, 0, s.size, jfStartInst(s, j))
+//@ loop 1 invariant [running-once-one-instance-started] i > 0 ==> s.running
